@@ -29,6 +29,16 @@ theorem value_of_held {c : VCache V} {n : Node} (h : n ∈ c.erase.held) :
     refine ⟨e.2, rfl, ?_⟩
     rw [← this]; exact h2
 
+theorem held_of_value {c : VCache V} {n : Node} {v : V} (h : c.value n = some v) : n ∈ c.data.map (·.1) := by
+  unfold VCache.value at h
+  cases hf : c.data.find? (fun e => e.1 == n) with
+  | none => rw [hf] at h; cases h
+  | some e =>
+    have h1 := List.find?_some hf
+    have h2 := List.mem_of_find?_eq_some hf
+    have : e.1 = n := by simpa using h1
+    exact List.mem_map.mpr ⟨e, h2, this⟩
+
 theorem VCache.Cons.value {D : Node → V} {c : VCache V} (hc : c.Cons D) {n : Node} {v : V}
     (h : c.value n = some v) : v = D n := by
   unfold VCache.value at h
@@ -298,5 +308,89 @@ theorem run_cons [Inhabited V] (fuel : Nat) (hz : 1 ≤ size) (vc0 : VCache V) (
   exact (key _).2
 
 end run
+
+/-! ## direct evaluation solves the equations -/
+
+theorem direct_of_inp (f : Node → List (Option V) → V) (preds : Node → List Node) (inp : Node → Option V)
+    (k : Nat) (n : Node) (v : V) (h : inp n = some v) : direct f preds inp k n = some v := by
+  cases k <;> simp [direct, h]
+
+theorem direct_succ_of_none (f : Node → List (Option V) → V) (preds : Node → List Node) (inp : Node → Option V)
+    (k : Nat) (n : Node) (h : inp n = none) :
+    direct f preds inp (k + 1) n = some (f n ((preds n).map (direct f preds inp k))) := by
+  simp [direct, h]
+
+/-- along a topological order, depth `m` determines the first `m` elements: more depth changes nothing -/
+theorem direct_stable (ordered : List Node) (succs preds : Node → List Node)
+    (ht : isTopo succs ordered = true) (hd : ordered.Nodup)
+    (f : Node → List (Option V) → V) (inp : Node → Option V) (hout : ∀ n ∈ ordered, inp n = none)
+    (hp : ∀ n ∈ ordered, ∀ p ∈ preds n, (p ∈ ordered ∧ n ∈ succs p) ∨ (inp p).isSome) :
+    ∀ m, m ≤ ordered.length → ∀ n ∈ ordered.take m, ∀ k, m ≤ k →
+      direct f preds inp k n = direct f preds inp m n := by
+  intro m
+  induction m with
+  | zero => intro _ n hn; simp at hn
+  | succ m ih =>
+    intro hm n hn k hk
+    have hlt : m < ordered.length := hm
+    rw [List.take_succ, List.getElem?_eq_getElem hlt] at hn
+    simp only [Option.toList_some, List.mem_append, List.mem_singleton] at hn
+    rcases hn with hn | hn
+    · rw [ih (by omega) n hn k (by omega), ih (by omega) n hn (m + 1) (by omega)]
+    · obtain ⟨k', rfl⟩ : ∃ k', k = k' + 1 := ⟨k - 1, by omega⟩
+      have hnord : n ∈ ordered := by rw [hn]; exact List.getElem_mem hlt
+      have eo : ordered = ordered.take m ++ n :: ordered.drop (m + 1) := by
+        rw [hn, ← List.drop_eq_getElem_cons hlt, List.take_append_drop]
+      rw [direct_succ_of_none f preds inp k' n (hout n hnord), direct_succ_of_none f preds inp m n (hout n hnord)]
+      congr 2
+      apply List.map_congr_left
+      intro p hpm
+      rcases hp n hnord p hpm with ⟨hpo, hs⟩ | hi
+      · have ht' := ht
+        have hd' := hd
+        have hpo' := hpo
+        rw [eo] at ht' hd' hpo'
+        have hpre := isTopo_pred_strict ht' hd' hpo' hs
+        exact ih (by omega) p hpre k' (by omega)
+      · obtain ⟨v, hv⟩ := Option.isSome_iff_exists.mp hi
+        rw [direct_of_inp f preds inp k' p v hv, direct_of_inp f preds inp m p v hv]
+
+/-- **direct evaluation solves the evaluation equations** on the planned elements, relative to the values
+`inp` the model holds: with `D n` = the value depth `ordered.length` gives `n` -/
+theorem direct_solves [Inhabited V] (ordered : List Node) (succs preds : Node → List Node)
+    (ht : isTopo succs ordered = true) (hd : ordered.Nodup)
+    (f : Node → List (Option V) → V) (inp : Node → Option V) (hout : ∀ n ∈ ordered, inp n = none)
+    (hp : ∀ n ∈ ordered, ∀ p ∈ preds n, (p ∈ ordered ∧ n ∈ succs p) ∨ (inp p).isSome) :
+    Solves f preds ordered (fun n => (direct f preds inp ordered.length n).getD default) ∧
+    (∀ n v, inp n = some v → (direct f preds inp ordered.length n).getD default = v) ∧
+    (∀ n ∈ ordered, ∀ k, ordered.length ≤ k →
+      direct f preds inp k n = some ((direct f preds inp ordered.length n).getD default)) := by
+  have hst := direct_stable ordered succs preds ht hd f inp hout hp ordered.length (Nat.le_refl _)
+  have hsome : ∀ n ∈ ordered, ∃ v, direct f preds inp ordered.length n = some v := by
+    intro n hn
+    have hpos : 0 < ordered.length := List.length_pos_of_mem hn
+    obtain ⟨l, hl⟩ : ∃ l, ordered.length = l + 1 := ⟨ordered.length - 1, by omega⟩
+    rw [hl, direct_succ_of_none f preds inp l n (hout n hn)]
+    exact ⟨_, rfl⟩
+  refine ⟨?_, ?_, ?_⟩
+  · intro n hn
+    have h1 := hst n (by simpa using hn) (ordered.length + 1) (by omega)
+    rw [direct_succ_of_none f preds inp _ n (hout n hn)] at h1
+    show (direct f preds inp ordered.length n).getD default = _
+    rw [← h1]
+    simp only [Option.getD_some]
+    congr 1
+    apply List.map_congr_left
+    intro p hpm
+    rcases hp n hn p hpm with ⟨hpo, _⟩ | hi
+    · obtain ⟨v, hv⟩ := hsome p hpo
+      rw [hv]; rfl
+    · obtain ⟨v, hv⟩ := Option.isSome_iff_exists.mp hi
+      rw [direct_of_inp f preds inp _ p v hv]; rfl
+  · intro n v hv
+    rw [direct_of_inp f preds inp _ n v hv]; rfl
+  · intro n hn k hk
+    obtain ⟨v, hv⟩ := hsome n hn
+    rw [hst n (by simpa using hn) k hk, hv]; rfl
 
 end MxModel.CalcSteps
